@@ -306,7 +306,7 @@ def run(ctx):
     ctx.cov['correspondence_disagreements'] = nbad
     ctx.cov['skipped'] = skipped
     nan_inside_cases(ctx)
-    honesty_sweep(ctx, ctx.n(15, 300))
+    honesty_sweep(ctx, ctx.n(15, 300) if not ctx.broken else 120)
     ctx.assumptions += ['PARTIAL: proved = the estimate is non-negative for every input and branch and belongs to the returned value (same index); "true error <= K x estimate + floor" is NOT a theorem for any finite-sample estimator: explored by the sweep with K = 1e4, floor = 1e-9 x local scale (calibrated on the unchanged tree, worst observed ratio 3.6e2)',
                         'every constant of the estimator (12.7062047361747, EPS*10, tol*10, trim 10, 1.5 IQR, 1e-8, the tie rule) is pinned in the model: changing one breaks the bit-exact tie',
                         'Hessian records are checked for self-consistency and honesty only (its stencil output bypasses LogRule._apply)']
